@@ -27,7 +27,8 @@ RULE = ('strata S1 (term shapes: 28 names x 5 kind spellings x 9 index forms x 5
         'tuples of 13 leaves), S3 (all expression shapes up to 5 (quick) / 6 (thorough) nodes over 4 leaves), S4 (all 2-3 equation systems over 8 (quick) / 12 '
         '(thorough) right-hand sides and every LHS ordering), SV (partial verbatim fragments), SL (47 contexts kept exactly as spelled: separate bracket groups, blanks before a call bracket, no blanks round operators); each accepted program x every feasible t x every branch-outcome sequence. '
         'plus 4 numeric vectors (the last seeds every variable at instantiation from one caller-owned array). non-trivial = accepted program whose evaluation writes at least one cell; distinct by script text'
-        " Every accepted program also as a comment twin (a comment with an unbalanced bracket, '=' and a term on each line; fenced statements wrapped in an indented block with comments; class built with with_type_hints=False): same names, same LAGS/LEADS, same pass. LAGS/LEADS of every class equal the longest lag/lead written.")
+        " Every accepted program also as a comment twin (a comment with an unbalanced bracket, '=' and a term on each line; fenced statements wrapped in an indented block with comments; class built with with_type_hints=False): same names, same LAGS/LEADS, same pass. LAGS/LEADS of every class equal the longest lag/lead written."
+        ' LAGS/LEADS of each class equal the longest lag/lead written. Contexts with doubled brackets; statements with 2-3 verbatim fragments; a rejected script of the verbatim strata is a violation; twin comments hold two hashes.')
 ASSUMPTIONS = [
     'scripts the parser rejects with its own error classes are not violations of C01 (C13/C14 judge rejections)',
     'elementary float operations, CPython operator dispatch, NumPy ufunc dispatch on objects and ast.unparse are trusted',
@@ -166,6 +167,9 @@ def check_program(p):
         symbols = fsic.parse_model(script)
         Model = fsic.build_model(symbols)
     except (ParserError, SymbolError, IndentationError) as e:
+        if p.stratum in ('SV', 'VS'):
+            # the verbatim strata hold documented forms only (no name plays two roles): every one of them is a model
+            return [('rejected:verbatim-stratum:%s' % type(e).__name__, 'a model', repr(e)[:160], 'a script with verbatim code in a documented form is rejected: %r' % script[:120])], 'rejected:' + type(e).__name__
         return _spelling_twin(p, type(e).__name__), 'rejected:' + type(e).__name__
     except Exception as e:
         return _spelling_twin(p, type(e).__name__), 'rejected-foreign:' + type(e).__name__
@@ -244,7 +248,7 @@ def _comment_twin(script):
                 lines.append('if True:  # a) always, see (3.7')
             lines.append('    ' + line + '  # b) Zq = Hq[-3]')
         else:
-            lines.append(line + '  # a) households, see (3.7: Zq = Hq[-3] + <zq>')
+            lines.append(line + '  # was: Wq[-4] * {pq}  # a) households, see (3.7: Zq = Hq[-3] + <zq>')   # (two hashes: the comment starts at the first)
     return '\n'.join(lines)
 
 
